@@ -10,7 +10,7 @@ from . import facts as F
 from . import miniexec as ME
 
 FMT_CONV = re.compile(r'%[-#0 +]*[0-9*]*(?:\.[0-9*]+)?(?:hh|h|ll|l|L|z|j|t)?([a-zA-Z])')
-ROOT = re.compile(r'^(\w+)((?:->|\.).*)$')
+ROOT = re.compile(r'^(\w+)((?:->|\.|\[).*)$')
 
 
 class HeapEnv(ME.Env):
@@ -33,9 +33,30 @@ class HeapEnv(ME.Env):
                 return self.heap_path(obj[head], rest, depth + 1)
         return None
 
+    globals = None   # facts shared by all functions of an execution (text-keyed, like env)
+
+    def norm_text(self, e, env, universe):
+        """source text of an lvalue with every subscript replaced by its evaluated value"""
+        e = F.strip(e)
+        k = e['k']
+        if k == 'DeclRefExpr':
+            return e['n']
+        if k == 'MemberExpr':
+            b = self.norm_text(e['c'][0], env, universe)
+            return None if b is None else b + ('->' if e.get('arrow') else '.') + e['n']
+        if k == 'ArraySubscriptExpr':
+            b = self.norm_text(e['c'][0], env, universe)
+            i = self.eval(e['c'][1], env, universe)
+            return None if b is None or not isinstance(i, int) else '%s[%d]' % (b, i)
+        if k == 'ParenExpr':
+            return self.norm_text(e['c'][0], env, universe)
+        return None
+
     def lookup_text(self, t, env, depth=0):
         if t in env:
             return env[t]
+        if self.globals and t in self.globals:
+            return self.globals[t]
         m = ROOT.match(t)
         if m and depth < 4:
             r = env.get(m.group(1))
@@ -45,6 +66,8 @@ class HeapEnv(ME.Env):
                 rest = m.group(2)
                 rest = '.' + rest[2:] if rest.startswith('->') else rest
                 return self.lookup_text(r[1] + rest, env, depth + 1)
+            if isinstance(r, tuple) and len(r) == 2 and r[0] == 'array' and m.group(2).startswith('['):
+                return self.lookup_text(r[1] + m.group(2), env, depth + 1)
         return None
 
     def eval(self, e, env, universe):
@@ -85,6 +108,13 @@ class HeapEnv(ME.Env):
             v = self.lookup_text(t, env)
             if v is not None:
                 return v
+            tn = self.norm_text(e, env, universe)
+            if tn is not None and tn != t:
+                if tn in env:
+                    return env[tn]
+                v = self.lookup_text(tn, env)
+                if v is not None:
+                    return v
             b = F.strip(e['c'][0])
             if b['k'] == 'ArraySubscriptExpr':
                 i = self.eval(b['c'][1], env, universe)
@@ -92,6 +122,9 @@ class HeapEnv(ME.Env):
                     t2 = '%s[%d]%s' % (F.src(F.strip(b['c'][0])).replace(' ', ''), i, t[len(F.src(b).replace(' ', '')):])
                     if t2 in env:
                         return env[t2]
+                    v2 = self.lookup_text(t2, env)
+                    if v2 is not None:
+                        return v2
             m = ROOT.match(t)
             if m and isinstance(env.get(m.group(1)), int) and env[m.group(1)] in self.heap:
                 return self.heap_path(env[m.group(1)], m.group(2))
@@ -219,6 +252,8 @@ class PrintExec(ME.MiniExec):
                 if k_.startswith(at + '->') or k_.startswith(at + '.') or k_.startswith(at + '['):
                     env2[p_['n'] + k_[len(at):]] = v_
         sub = PrintExec(self.tu, self.heap, self.accessors, self.printers, self.max_iter)
+        sub.ev.globals = self.ev.globals
+        sub.concrete_ints = self.concrete_ints
         sub.depth = self.depth + 1
         sub.retval = 'none'
         r = sub.run(g.body, env2)
